@@ -316,6 +316,8 @@ void Value::do_taproot_tweak_pubkey() {
 }
 
 void Value::do_pubkey_to_xpubkey() {
+    if (!secp256k1_context_sign) ECC_Start();
+
     CPubKey pubkey(data);
     if (!pubkey.IsValid()) abort("invalid pubkey");
     secp256k1_pubkey pk;
